@@ -312,6 +312,9 @@ func runC03(tier string, seed uint64) int {
 		agg.add("batches", 1)
 		agg.add("batch_lines", int64(len(lines)))
 		for _, l := range lines {
+			if l.Marker && l.DupOf < 0 {
+				agg.add("lines_with_instability_marker", 1)
+			}
 			for _, t := range l.Tokens {
 				if strings.HasPrefix(t, "parameter=") && l.DupOf < 0 {
 					agg.add("lines_with_custom_crop_code", 1)
@@ -337,8 +340,8 @@ func runC03(tier string, seed uint64) int {
 	}
 	agg.cov["distinct_completion_orders"] = int64(len(agg.orders))
 	spec := checkSpec{Prop: "C03", Level: "exploration",
-		Rule:   "per batch: generated projects covering the five ET methods, three weather layouts, three groundwater modes, PTF and automatic management, plus the same project with a second result folder and exact duplicate lines; every distinct line is run alone twice in fresh processes (reference hashes, reproducibility), then the whole batch is executed by the real hermes2go built with -race and the verif hooks under schedules = (concurrency 1..16, shuffled line order, GOMAXPROCS 1/2/16, seeded delays at run start / before the result send / at pool access); every line's result files must equal the solo reference, every log id must have exactly one run_start and one run_end event in the trace, the race detector must stay silent; plus a porcupine linearizability check of recorded file-pool histories (in-process, -race). evaluations = batch executions under a schedule; non-trivial = executions in which at least two runs were active at the same time according to the trace",
-		Floors: []string{"line_results_compared", "schedules_concurrency_1", "schedules_concurrency_16", "schedules_with_injected_delays", "solo_reference_runs", "pool_history_operations", "pool_histories_checked", "lines_logging_while_valid", "lines_with_custom_crop_code"},
+		Rule:     "per batch: generated projects covering the five ET methods, three weather layouts, three groundwater modes, PTF and automatic management, plus the same project with a second result folder and exact duplicate lines; every distinct line is run alone twice in fresh processes (reference hashes, reproducibility), then the whole batch is executed by the real hermes2go built with -race and the verif hooks under schedules = (concurrency 1..16, shuffled line order, GOMAXPROCS 1/2/16, seeded delays at run start / before the result send / at pool access); every line's result files must equal the solo reference, every log id must have exactly one run_start and one run_end event in the trace, the race detector must stay silent; plus a porcupine linearizability check of recorded file-pool histories (in-process, -race). evaluations = batch executions under a schedule; non-trivial = executions in which at least two runs were active at the same time according to the trace",
+		Floors:   []string{"line_results_compared", "schedules_concurrency_1", "schedules_concurrency_16", "schedules_with_injected_delays", "solo_reference_runs", "pool_history_operations", "pool_histories_checked", "lines_logging_while_valid", "lines_with_custom_crop_code", "lines_with_instability_marker"},
 		FloorMin: map[string]int64{"max_simultaneous_runs": 4, "distinct_completion_orders": 3}}
 	return finishCheck(spec, tier, seed, []*CaseResult{agg.toCase("C03", seed)}, agg.inconcl, t0, map[string]interface{}{"race_detector": "go build -race; GORACE=halt_on_error=0 log_path=...; reports deduplicated by outermost frame pair"})
 }
